@@ -80,4 +80,13 @@ def loopN : Nat → Sim d → LoopResult d
     | .rejected => .raised s
     | .internal => .raised s
 
+/-- `k` successful steps (driving the simulation by hand with `next_step()`); `none` if one of them
+    does not return 0 -/
+def runN : Nat → Sim d → Option (Sim d)
+  | 0, s => some s
+  | k + 1, s =>
+    match nextStep s with
+    | .ok s' => runN k s'
+    | _ => none
+
 end Boario
